@@ -16,9 +16,12 @@ BFMTS = ["install", "download", "size", "archive_index", "encoding", "root", "tv
 def known_findings(ctx, prop, prefix):
     """ids of the findings of this property listed as known; findings.d is the source KNOWN_FINDINGS.json is made of."""
     ids = []
+    # VERIF_UNLIST=F02e,F02f (development only, with VERIF_REPO): judge a patched tree as if these were fixed
+    unlisted = set(filter(None, os.environ.get("VERIF_UNLIST", "").split(","))) if lib.REPO != "/repo" else set()
+    ctx.known["findings"] = [x for x in ctx.known.get("findings", []) if x.get("id") not in unlisted]
     for p in sorted(glob.glob(os.path.join(lib.ROOT, "findings.d", prefix + "*.json"))):
         f = json.load(open(p))
-        if f.get("property") == prop and f.get("status", "known") == "known":
+        if f.get("property") == prop and f.get("status", "known") == "known" and f["id"] not in unlisted:
             ids.append(f["id"])
             if not any(x.get("id") == f["id"] for x in ctx.known.setdefault("findings", [])):
                 ctx.known["findings"].append(f)
